@@ -62,6 +62,7 @@ pub fn secret_pair(aes256: bool, client: bool, secret: &[u8; 32]) -> (schedule::
 pub struct Rec {
     names: Mutex<Vec<&'static str>>,
     ups_accepted: Mutex<Vec<(bool, bool)>>,
+    keys_accepted: Mutex<Vec<u64>>,
 }
 
 impl Rec {
@@ -72,6 +73,10 @@ impl Rec {
     /// (evicted, scheduled_handshake) of every accepted UnknownPathSecret packet since the last call
     pub fn take_ups_accepted(&self) -> Vec<(bool, bool)> {
         std::mem::take(&mut *self.ups_accepted.lock().unwrap())
+    }
+    /// key id of every `key_accepted` event (replay window marked the id as seen) since the last call
+    pub fn take_keys_accepted(&self) -> Vec<u64> {
+        std::mem::take(&mut *self.keys_accepted.lock().unwrap())
     }
 }
 
@@ -91,6 +96,10 @@ impl event::Subscriber for Rec {
         event: &event::api::UnknownPathSecretPacketAccepted,
     ) {
         self.ups_accepted.lock().unwrap().push((event.evicted, event.scheduled_handshake));
+    }
+
+    fn on_key_accepted(&self, _meta: &event::api::EndpointMeta, event: &event::api::KeyAccepted) {
+        self.keys_accepted.lock().unwrap().push(event.key_id);
     }
 
     fn on_event<M: event::Meta, E: event::Event>(&self, _meta: &M, _event: &E) {
